@@ -139,8 +139,20 @@ fn num(n: i64, p: Num) -> Value {
     }
 }
 
+/// Placeholders for unknown-member values a `serde_json::Value` cannot hold; `finish_text` puts the
+/// JSON text in their place.
+const HUGE_NUMBER: &str = "@@a-number-beyond-the-f64-range@@";
+const DEEP_NESTING: &str = "@@two-hundred-nested-arrays@@";
+
+pub(crate) fn finish_text(text: String) -> String {
+    let deep = format!("{}{}", "[".repeat(200), "]".repeat(200));
+    text.replace(&format!("\"{HUGE_NUMBER}\""), "-1E+400").replace(&format!("\"{DEEP_NESTING}\""), &deep)
+}
+
 fn unknown_value(rng: &mut Rng) -> Value {
-    match rng.below(4) {
+    match rng.below(6) {
+        4 => json!(HUGE_NUMBER),
+        5 => json!({"limit": DEEP_NESTING, "more": [HUGE_NUMBER]}),
         0 => json!(null),
         1 => json!({"nested": [1, "two", {"three": 3.5}]}),
         2 => json!("string"),
@@ -367,7 +379,7 @@ fn options_case(rep: &mut Report, seed: u64, idx: u64, thorough: bool) {
     for p in variants {
         rep.eval();
         let doc = render(&d, &p, &mut rng);
-        let text = doc.to_string();
+        let text = finish_text(doc.to_string());
         let mut case = case0.clone();
         case["presentation"] = json!(format!("{p:?}"));
         case["variant"] = doc;
